@@ -27,9 +27,11 @@ class ValueMethods:
             f = z3.Function('decode!%s!%s' % (enc, errors), ArrS, IntS, IntS, z3.StringSort())
             if errors == 'strict' and enc.lower().replace('-', '') in ('utf8', 'ascii') and not I.pure:
                 okf = z3.Function('decodable!%s' % enc, ArrS, IntS, IntS, z3.BoolSort())
-                if not I.ctx.branch(okf(b.arr, to_int(b.off), to_int(b.n))):
+                from .vals import view_args
+                if not I.ctx.branch(okf(*view_args(b))):
                     raise PyExc('UnicodeDecodeError', ln)
-            return f(b.arr, to_int(b.off), to_int(b.n))
+            from .vals import view_args
+            return f(*view_args(b))
         if name == 'find':
             b = self.to_sbytes(I, obj) if not isinstance(obj, SBytes) else obj
             needle = args[0]
@@ -38,12 +40,16 @@ class ValueMethods:
             c = needle[0]
             r = I.ctx.const('find', IntS)
             n = to_int(b.n)
-            i = z3.Int('i!find')
-            # r = least index with b[r]==c, or -1
+            off = to_int(b.off)
+            j = z3.Int('j!find')
+            # r = least index with b[r]==c, or -1 (absolute array indices, so that the
+            # facts match Select(arr, j) patterns of the invariants)
             I.ctx.assume(z3.Or(
-                z3.And(r == -1, z3.ForAll([i], z3.Implies(z3.And(i >= 0, i < n), b.at(i) != c))),
-                z3.And(r >= 0, r < n, b.at(r) == c,
-                       z3.ForAll([i], z3.Implies(z3.And(i >= 0, i < r), b.at(i) != c)))))
+                z3.And(r == -1, z3.ForAll([j], z3.Implies(z3.And(j >= off, j < off + n), z3.Select(b.arr, j) != c),
+                                          patterns=[z3.Select(b.arr, j)])),
+                z3.And(r >= 0, r < n, z3.Select(b.arr, off + r) == c,
+                       z3.ForAll([j], z3.Implies(z3.And(j >= off, j < off + r), z3.Select(b.arr, j) != c),
+                                 patterns=[z3.Select(b.arr, j)]))))
             return r
         if name == 'join':
             # b''.join(chunks)
@@ -181,11 +187,24 @@ class ValueMethods:
 
 
 class ChunkList:
-    """list of byte chunks whose concatenation is one contiguous view (used
-    for the chunked C-string reader)"""
+    """list of byte chunks whose concatenation is one contiguous view of an array
+    (used for the chunked C-string reader)"""
 
     def __init__(self, view):
         self.view = view
+
+    def append(self, I, M, chunk):
+        chunk = M.to_sbytes(I, chunk) if not isinstance(chunk, SBytes) else chunk
+        v = self.view
+        if not is_sym(chunk.n):
+            if chunk.n == 0:
+                return
+        elif I.ctx.branch(to_int(chunk.n) == 0):
+            return
+        same = is_sym(v.arr) and is_sym(chunk.arr) and v.arr.eq(chunk.arr)
+        if not same or not I.ctx.provable(to_int(v.off) + to_int(v.n) == to_int(chunk.off)):
+            raise Unsupported('appended chunk is not adjacent to the accumulated view')
+        self.view = SBytes(v.arr, v.off, z3.simplify(to_int(v.n) + to_int(chunk.n)))
 
     def joined(self):
         return self.view
